@@ -33,8 +33,7 @@ ASSUMPTIONS = [
     'thread) calls stop(); if nothing is scripted there the loop would block for ever, which the harness reports',
     'handler code placed after a stop(code) call is not expected to run (stop(code) raises SystemExit by contract)',
 ]
-OUTSIDE = ['stop(code) with a code from a second thread (SystemExit is raised in the calling thread by design)',
-           'process mode (start(process=True)), signals', 'chains longer than the bounds']
+OUTSIDE = ['process mode (start(process=True)), signals', 'chains longer than the bounds']
 
 
 class step(Event):
@@ -193,7 +192,7 @@ def make_harness(cycles, chain_max, after_options, tail_options, placements):
         for cyc in range(cycles):
             cur['cycle'] = cyc
             place = g.pick('place%d' % cyc, placements)
-            hows = HOWS if place != 'thread' else ['stop']
+            hows = HOWS if place != 'thread' else ['stop', 'stop_code']
             how = g.pick('how%d' % cyc, hows)
             prog = {
                 'place': place, 'how': how,
